@@ -2249,6 +2249,8 @@ var alphabet = []lex{
 	{"{{#a}}", 's', "a"}, {"{{/a}}", 'x', "a"}, {"{{^c}}", 'i', "c"}, {"{{/c}}", 'x', "c"},
 	{"{{#if D}}", 's', "D"}, {"{{/if}}", 'x', ""}, {"{{#unless a}}", 'i', "a"}, {"{{/unless}}", 'x', ""},
 	{"{{{#a}}}", 's', "a"}, {"{{/}}", '?', ""}, {"{{a}}}", '?', ""}, {"{{", '?', ""},
+	// a comment's body is free text (apostrophes, quotes, braces that do not close it); its brace counts must match too
+	{"{{! don't \"{ }x }}", 'c', ""}, {"{{{!it's}}}", 'c', ""}, {"{{! n }}}", '?', ""}, {"{{{! n }}", '?', ""},
 }
 
 func parse(ls []lex, pos *int, open string, top bool) ([]*node, bool) {
@@ -2360,8 +2362,8 @@ class MustacheFamily(Family):
 
     @classmethod
     def bounded_source(cls, prog, fname):
-        return 'mustache', cls.source(), ('all sequences of up to 4 template lexemes over a 17-lexeme alphabet (text, variables, escaped variables, comments, sections in '
-                                          'every spelling, section ends by name and anonymous, three malformed tags) x 4 variable maps (one with keys that differ only in letter case), each rendered three times, against a reference recogniser and renderer')
+        return 'mustache', cls.source(), ('all sequences of up to 4 template lexemes over a 21-lexeme alphabet (text, variables, escaped variables, comments with free text, sections in '
+                                          'every spelling, section ends by name and anonymous, five malformed tags) x 4 variable maps (one with keys that differ only in letter case), each rendered three times, against a reference recogniser and renderer')
 
 
 HISTORY_TEST = r'''package test_calculator
